@@ -55,7 +55,7 @@ class Session:
         self.explanation = ''
         self.trusted_base = []
         self.stats = {'paths': 0, 'prune_calls': 0, 'prune_s': 0.0}
-        self.timeout_s = 30 if tier == 'quick' else 300
+        self.timeout_s = 60 if tier == 'quick' else 300
         self.cvc5_all = (tier == 'thorough')
         self.extra_cov = {}
         self.engine_errors = []
